@@ -59,9 +59,42 @@ NOTES = {
  'C13-geartrain-early-return-skips-relay': 'gear train updated while only side 2 has a STATE: the command relay below the early return is skipped for that update',
  'C15-follow-writeback-overwrites-reentrant-change': 'a settable whose impl_set itself calls stop_following / follow(other) during a forwarded update',
  'C20-pid-wrapper-resets-when-terminal-sees-nothing': 'PID wrapper whose terminal sees nothing AFTER having seen data (link cut mid-run), then more updates or a reconnect',
+ 'C02-sum2-holds-first-borrow-while-reading-second': 'Sum2 whose first input is absent and whose two inputs share one Mutex-backed Reference (guard of input 1 still held while input 2 is read): never returns',
+ 'C04-dt-via-f64-absolute-timestamps': 'PID with absolute timestamps beyond 2^53 ns (e.g. nanoseconds since the Unix epoch): dt from a difference of f64-rounded stamps',
+ 'C08-geartrain-update-terminals-pulls-side1-twice': 'gear train whose side-2 terminal gets its states by FOLLOWING a getter (pulled in update_terminals) rather than by set',
+ 'C09-mean-halve-before-add-subnormal': 'terminal mean computed as a/2 + b/2: differs from (a+b)/2 only for odd subnormal components (one subnormal step)',
+ 'C12-moving-average-128-sample-cap': 'moving average with more than 128 samples inside the window (queue capped)',
+ 'C16-rc-borrow-unguarded': 'Rc variant: borrow() no longer registers with the RefCell, so a borrow_mut() is granted while a shared borrow is alive (reader first, writer second)',
+ 'C17-ptrmutex-try-lock': 'PtrMutex variant (static_mutex_reference!): try_lock instead of lock, panics under contention between threads',
+ 'C19-nostd-abs-positive-zero': 'builds without std: Quantity::abs(+0.0) returns -0.0 (visible through a reciprocal); rebased onto the tree with fix D5, which it led to',
  'C19-libm-powf-whole-exponent-squaring': 'no_std+libm only: powf with a whole-number exponent by repeated squaring (dozens of ulps for large |n|, 0 for subnormal results)',
 }
 HISTORY = {
+ 'C19-nostd-abs-positive-zero': 'pointed at `Quantity::abs`, which the value-level API world called but never with a zero operand and never followed by a division. '
+   'Extending the world (zeros of both signs and equal operands as regular operands; reciprocal of abs / of negation; division by a - a) reported a divergence on the '
+   'UNCHANGED tree: abs(-0.0) kept its sign without std - genuine defect D5, repaired in /repo by a fix: commit. The author\'s change (abs(+0.0) = -0.0 without std) '
+   'is stored rebased onto the repaired tree and is caught at quick tier.',
+ 'C04-dt-via-f64-absolute-timestamps': 'MISSED at both tiers: histories started within +-2^41 ns of zero and the time-shift twin shifted by at most 2^50. Start times now '
+   'include 2^53+, nanoseconds since the Unix epoch, 2^62 and -2^60, and the twin also shifts the history to the Unix epoch, to 2^53 and to either end of the i64 '
+   'range. Caught at quick tier since.',
+ 'C02-sum2-holds-first-borrow-while-reading-second': 'MISSED at both tiers: every node reached a leaf through an Rc handle of its own, so a borrow kept alive while another '
+   'input is read could not conflict with anything. Plans now choose how leaves are reached (header leafref): own handles, or ONE shared Reference per leaf behind an Rc, '
+   'a Mutex or an RwLock; a third enumerated block passes the same lock-backed Reference as both / all value inputs of every multi-input combinator. The run never '
+   'returns and the watchdog reports `C02|hang|comb`. Caught at quick tier since.',
+ 'C17-ptrmutex-try-lock': 'MISSED at both tiers: the scheduled threads only built the Arc variants. Shapes now include the pointer-to-lock variants (PtrMutex / PtrRwLock '
+   'over the lock inside the shared Arc, which is what the static_* macros build over a static). Caught at quick tier since (panic under contention).',
+ 'C16-rc-borrow-unguarded': 'MISSED at both tiers: no program kept two guards of one target alive at once. The Miri reference program now checks the borrow discipline of the '
+   'Rc variant in both orders, through the concrete and the trait-object handle (a conflicting borrow must be refused; if it is granted the following uses are an '
+   'aliasing violation the interpreter reports). Caught at quick tier since.',
+ 'C12-moving-average-128-sample-cap': 'MISSED at both tiers, and outside the property\'s sampling bound (histories of up to 64 events cannot put 129 samples into a window). The '
+   'statement itself has no length limit, so 2 % of the node runs of every kind now have 130..320 events, with the moving-average window holding hundreds of '
+   'samples. Caught at quick tier since.',
+ 'C08-geartrain-update-terminals-pulls-side1-twice': 'MISSED at both tiers: device terminals only ever received states by set or through a link. In an eighth of the C08 runs '
+   'device terminals now FOLLOW scripted getters (ops TF / TFN); the owning device\'s update pulls them, and the projection oracle is fed the followed state for '
+   'unlinked follower terminals (updates with a linked follower terminal are not judged). Caught at quick tier since.',
+ 'C09-mean-halve-before-add-subnormal': 'NOT REPORTED, deliberately: a/2 + b/2 is a mean of the two states and differs from (a+b)/2 by at most one subnormal step (1.4e-45) in '
+   'components that are odd subnormals - a rounding-level difference of a re-associated formula, which the checks must not flag (the same reformulation is one of '
+   'the 23 "must stay quiet" pairs of tools/muttest.py). Kept here for the record; it is the one stored change that no check catches.',
  'C15-follow-writeback-overwrites-reentrant-change': 'MISSED at both tiers: every operation of the settable world was issued from outside an update, and the '
    'user motor only recorded / rejected. The motor can now be armed (op MRE) to call stop_following, follow(alternative) or follow(primary) from inside '
    'its next impl_set - re-entrancy as one more injected event; the model applies the change at the moment the forwarded set reaches impl_set. Caught at '
@@ -130,7 +163,7 @@ out = ["# Independently written property-breaking changes\n",
 "|---|---|---|---|---|"]
 for name, prop, ok, caught, first in rows:
     out.append("| `%s` | %s | %s | %s | `%s` |" % (name, prop, NOTES.get(name, ''), caught, first))
-out.append("\n%d changes, all confirmed; all are caught by the quick tier of the check of the property they target (the column also lists other checks that were tried and fired).\n" % len(rows))
+out.append("\n%d changes, all confirmed; all but one are caught by the quick tier of the check of the property they target (the column also lists other checks that were tried and fired). The exception, `C09-mean-halve-before-add-subnormal`, is a rounding-level reformulation that is deliberately not reported (see below).\n" % len(rows))
 out.append("## Misses and what was done about them\n")
 for k, v in HISTORY.items():
     out.append("* `%s` — %s" % (k, v))
